@@ -436,7 +436,12 @@ func (ego *atFloat) serialize() string {
 	if abs >= math.Pow10(6) || (abs > 0 && abs <= math.Pow10(-6)) {
 		return strconv.FormatFloat(val, 'e', -1, 64)
 	}
-	return strconv.FormatFloat(val, 'f', -1, 64)
+	str := strconv.FormatFloat(val, 'f', -1, 64)
+	if val == math.Trunc(val) && !math.IsInf(val, 0) {
+		// whole number - the fraction is kept so the value is read back as a float
+		str += ".0"
+	}
+	return str
 }
 
 /*
